@@ -2611,6 +2611,46 @@ theorem runSkipN_all (fuel : Nat) (inputs : List (List Candle)) (e : Engine M) (
         rw [hnext] at g1
         exact ⟨by rw [g2, h2], g1⟩
 
+/-! ### the chunk size of the fast simulator divides every timeframe -/
+
+theorem gcd_foldl_dvd_init (l : List Nat) (a : Nat) : l.foldl Nat.gcd a ∣ a := by
+  induction l generalizing a with
+  | nil => exact Nat.dvd_refl a
+  | cons x xs ih => exact Nat.dvd_trans (ih (Nat.gcd a x)) (Nat.gcd_dvd_left a x)
+
+theorem gcd_foldl_dvd_mem (l : List Nat) (a x : Nat) (hx : x ∈ l) : l.foldl Nat.gcd a ∣ x := by
+  induction l generalizing a with
+  | nil => cases hx
+  | cons y ys ih =>
+    simp only [List.foldl_cons]
+    rcases List.mem_cons.mp hx with h | h
+    · subst h; exact Nat.dvd_trans (gcd_foldl_dvd_init ys (Nat.gcd a x)) (Nat.gcd_dvd_right a x)
+    · exact ih (Nat.gcd a y) h
+
+/-- `_calculate_minimum_candle_step`: the gcd of all route timeframes divides every bigger timeframe of every symbol -/
+theorem gcdList_dvd_tfsRaw (cfg : Cfg) (sym : Nat) (m : Nat) (hm : m ∈ tfsRaw cfg sym) :
+    gcdList ((cfg.routes ++ cfg.dataRoutes).map (·.tf)) ∣ m := by
+  unfold gcdList
+  apply gcd_foldl_dvd_mem
+  unfold tfsRaw at hm
+  obtain ⟨r, hr, rfl⟩ := List.mem_map.mp hm
+  exact List.mem_map.mpr ⟨r, (List.mem_filter.mp hr).1, rfl⟩
+
+/-- THE RUN OF THE FAST SIMULATOR with its own chunk size (the gcd of the route timeframes): `runSkipN_all` without the
+    divisibility assumption. -/
+theorem runSkipN_gcd (fuel : Nat) (inputs : List (List Candle)) (e : Engine M) (t0 : Int)
+    (hal : ∀ s, s < e.cfg.nsym → AlignedCfg e.cfg s t0)
+    (hstep : 0 < gcdList ((e.cfg.routes ++ e.cfg.dataRoutes).map (·.tf)))
+    (hi : AllInv e inputs t0 e.cfg.nsym 0 (fun _ => (inputs.getD 0 []).length)) :
+    ∀ k, (∀ j, j < k → j * gcdList ((e.cfg.routes ++ e.cfg.dataRoutes).map (·.tf)) < (inputs.getD 0 []).length) →
+      (runSkipN u fuel inputs e (gcdList ((e.cfg.routes ++ e.cfg.dataRoutes).map (·.tf))) k).1.err.isSome ∨
+      ((runSkipN u fuel inputs e (gcdList ((e.cfg.routes ++ e.cfg.dataRoutes).map (·.tf))) k).1.cfg = e.cfg ∧
+       AllInv (runSkipN u fuel inputs e (gcdList ((e.cfg.routes ++ e.cfg.dataRoutes).map (·.tf))) k).1
+         (runSkipN u fuel inputs e (gcdList ((e.cfg.routes ++ e.cfg.dataRoutes).map (·.tf))) k).2 t0 e.cfg.nsym
+         (min (k * gcdList ((e.cfg.routes ++ e.cfg.dataRoutes).map (·.tf))) (inputs.getD 0 []).length)
+         (fun _ => (inputs.getD 0 []).length)) :=
+  runSkipN_all u fuel inputs e t0 _ hal hstep (fun s _ m hm => gcdList_dvd_tfsRaw e.cfg s m hm) hi
+
 end run
 
 end C07
